@@ -41,6 +41,7 @@ def load_inventory():
     inv["module_names"] = {k: set(v) for k, v in inv["module_names"].items()}
     inv["class_names"] = {k: set(v) for k, v in inv["class_names"].items()}
     inv["nested"] = set(inv.get("nested", []))
+    inv["locals"] = {k: set(v) for k, v in inv.get("locals", {}).items()}
     return inv
 
 
@@ -202,6 +203,18 @@ def single_expr_of(body):
     """the one expression a small function body computes, or None:  `return E`;  `if C: return True else: return False` -> C;
     `if A: return False` + `return B` -> `not A and B` (B boolean-valued)"""
     body = _strip_doc(body)
+    # `x = E; return f(x)`: a local bound once and read once, with nothing impure evaluated between binding and use, is its value
+    while len(body) == 2 and isinstance(body[0], ast.Assign) and len(body[0].targets) == 1 and isinstance(body[0].targets[0], ast.Name) \
+            and isinstance(body[1], ast.Return) and body[1].value is not None:
+        from .desugar import Desugar, is_pure, _Sub
+        x = body[0].targets[0].id
+        uses = [n for n in ast.walk(body[1].value) if isinstance(n, ast.Name) and n.id == x]
+        if len(uses) != 1 or not isinstance(uses[0].ctx, ast.Load) or any(isinstance(n, ast.Name) and n.id == x for n in ast.walk(body[0].value)):
+            break
+        bef = Desugar._before(body[1].value, uses[0])
+        if bef is None or not all(is_pure(b_) for b_ in bef):
+            break
+        body = [ast.copy_location(ast.Return(value=_Sub({x: body[0].value}).visit(copy.deepcopy(body[1].value))), body[1])]
     if len(body) == 1 and isinstance(body[0], ast.Return) and body[0].value is not None:
         return body[0].value
     if len(body) == 1 and isinstance(body[0], ast.If) and len(body[0].body) == 1 and len(body[0].orelse) == 1 \
@@ -352,6 +365,9 @@ class Normalizer:
                 and not _has(body[0].value, (ast.DictComp, ast.ListComp)):
             # (helpers used only here are dropped like any fully inlined helper: they stay in the log)
             return body[0].value
+        import os
+        if os.environ.get("BSA_DEBUG_CONST"):
+            print("CONST", name, "->", ast.unparse(fn), getattr(self, "bailed", [])[-3:])
         return None
 
     def new_class_consts(self, ci):
@@ -433,6 +449,17 @@ class Normalizer:
         cache = self.__dict__.setdefault("_sg_cache", {})
         if key in cache:
             return cache[key]
+        # the helper's own new helpers and constants are resolved in ITS module first (they need not exist in the caller's)
+        hq_ = f"{hmod.name}.{fnode.name}"
+        act = self.__dict__.setdefault("_sg_active", set())
+        fi_ = self.repo.funcs.get(hq_)
+        if fi_ is not None and fi_.node is fnode and fi_.cls is None and hq_ not in act and self.is_new_function(hq_) \
+                and hq_ not in getattr(self, "_stack_now", ()):
+            act.add(hq_)
+            try:
+                self.ensure_normalized(hq_, fnode, {"stack": list(getattr(self, "_stack_now", ()))})
+            finally:
+                act.discard(hq_)
         local = _locals_of(fnode)
         ok = True
         foreign = {}
@@ -449,6 +476,10 @@ class Normalizer:
                     if hc is None:
                         hc = self.new_module_consts(hmod)
                         self._mconst_cache[hmod.name] = hc
+                    from . import records as _rec
+                    if a is not None and b is None and _rec.RECORDS is not None and _rec.RECORDS.names.get(n.id) is not None \
+                            and isinstance(getattr(n, "ctx", None), ast.Load):
+                        continue                 # a NEW record class: its simple name means the same record in every module
                     if a is not None and a.kind == "const" and a.mod is hmod and n.id in hc:
                         foreign[n.id] = hc[n.id]
                     else:
@@ -1067,6 +1098,8 @@ class Normalizer:
         fi_ = self.repo.funcs.get(qual)
         if fi_ is not None and fi_.node is fn:
             self.substitute_consts_of(fi_)        # new constants first: a table or record constant may expose helper calls
+            if os.environ.get("BSA_ALIAS", "1") != "0":
+                self.spelling_changes = getattr(self, "spelling_changes", 0) + spelling(fn, cls, mod)   # (a substituted table is unrolled)
         a = fn.args
         params = [x.arg for x in a.posonlyargs + a.args]
         selfname = params[0] if (cls is not None and params and self._kind(fn) in ("plain", "other", "class")) else None
@@ -1267,7 +1300,7 @@ def canon_calls(repo, nz):
     nz.keyword_args_moved = n_moved
 
 
-def finish(nz, node, cls, mod, do_alias=True, do_shape=True):
+def finish(nz, node, cls, mod, do_alias=True, do_shape=True, qual=None):
     """spelling / propagation / shape feed each other (a guard clause turned into if/else exposes a flag hand-over, a
     propagated record exposes a field access ...): repeated until a round changes nothing"""
     for round_ in range(4):
@@ -1281,7 +1314,7 @@ def finish(nz, node, cls, mod, do_alias=True, do_shape=True):
             if k or k0:
                 changed += k + k0 + spelling(node, cls, mod)      # literals moved into place may enable U1/U3/U5
             kd = drop_dead_copies(node)
-            k2 = propagate_single_use(node) + kd
+            k2 = propagate_single_use(node, nz.inv["locals"].get(qual) if qual else None) + kd
             nz.alias_subst += k2
             if k2:
                 changed += k2 + spelling(node, cls, mod)      # a dict literal moved into `f(**{..})` becomes keywords (U15)
@@ -1374,7 +1407,7 @@ def apply(repo):
         if id(fi.node) in seen:
             continue
         seen.add(id(fi.node))
-        finish(nz, fi.node, fi.cls, fi.mod, do_alias, do_shape)
+        finish(nz, fi.node, fi.cls, fi.mod, do_alias, do_shape, qual=fi.qual)
     return nz
 
 
@@ -1663,6 +1696,9 @@ def drop_dead_copies(fn):
             return all(pure_value(e) for e in v.elts)
         if isinstance(v, ast.Dict):
             return all(k is not None and pure_value(k) for k in v.keys) and all(pure_value(x) for x in v.values)
+        from . import records as _rec
+        if isinstance(v, ast.Call) and _rec.RECORDS is not None and _rec.RECORDS.is_value(v, pure_value):
+            return True                          # a NEW record construction has no effect
         return False
 
     def block(stmts):
@@ -3108,8 +3144,9 @@ def spelling(fn, cls=None, mod=None):
     return sp.changes
 
 
-def propagate_single_use(fn):
-    """P6: `x = E` immediately followed by `if x:` / `if not x:` where x has no other use -> `if E:`."""
+def propagate_single_use(fn, known_locals=None):
+    """P6: `x = E` immediately followed by `if x:` / `if not x:` where x has no other use -> `if E:`.
+    `known_locals`: the local names of this function in the confirmed tree (None for a new function)."""
     n_sub = 0
     loads, stores = {}, {}
     for n in ast.walk(fn):
@@ -3150,7 +3187,9 @@ def propagate_single_use(fn):
                                        any(o is x for o in occ for x in ast.walk(sc)) for sc in ast.walk(nxt.value))
                     # (only the plain hand-over `y = x` - a chain of temporaries; named intermediate values are kept, the rules of
                     # the confirmed tree know them by their roles)
-                    if len(occ) == 1 and in_scope and occ[0] is nxt.value and isinstance(nxt, ast.Assign):
+                    # A local the confirmed tree does not have is a NEW named temporary: it is transparent wherever it is read.
+                    fresh = known_locals is not None and name not in known_locals
+                    if len(occ) == 1 and in_scope and ((occ[0] is nxt.value and isinstance(nxt, ast.Assign)) or fresh):
                         before = _Dz._before(nxt.value, occ[0])
                         # (the targets of a plain assignment are evaluated after its value: they need not be pure)
                         tgt_pure = isinstance(nxt, ast.Assign) or all(_is_simple(t) for t in ([nxt.target] if isinstance(nxt, ast.AugAssign) else []))
